@@ -53,6 +53,36 @@ def run(ctx):
     # ---- what a spa reports selects the modules: for every shipped platform x config version x log version the FILES reply, decoded by the
     #      real handler, must name exactly the config / log modules of those versions (the client builds '<platform>-cfg-<n>' / '-log-<m>' from it)
     from geckolib.driver import GeckoConfigFileProtocolHandler
+    # the clients' OWN name expressions (fail-closed AST read of the f-strings assigned to pack_module_name / config_module_name /
+    # log_module_name in GeckoAsyncSpa._connect and GeckoSpa's connect path), evaluated on what the real handler decoded
+    import ast
+    import importlib.util
+
+    def name_exprs(relpath):
+        tree = ast.parse(open(os.path.join(vf.REPO, "src", "geckolib", relpath)).read())
+        found = {}
+        for node in ast.walk(tree):
+            if isinstance(node, ast.Assign) and len(node.targets) == 1 and isinstance(node.targets[0], ast.Name) \
+                    and node.targets[0].id in ("pack_module_name", "config_module_name", "log_module_name"):
+                if not isinstance(node.value, ast.JoinedStr) or node.targets[0].id in found:
+                    return None
+                free = {n.id for n in ast.walk(node.value) if isinstance(n, ast.Name)}
+                if not free <= {"plateform_key", "self"}:
+                    return None
+                found[node.targets[0].id] = compile(ast.Expression(node.value), relpath, "eval")
+        return found if len(found) == 3 else None
+    clients = {"async_spa.py": name_exprs("async_spa.py"), "spa.py": name_exprs("spa.py")}
+    ctx.oblige("translator:module_name_expressions_of_both_clients_read", all(v is not None for v in clients.values()),
+               "the f-strings that build the pack / config / log module names were not found in their known form in: %r" % [k for k, v in clients.items() if v is None])
+
+    class _V:
+        pass
+
+    def client_names(exprs, key, cv, lv):
+        v = _V()
+        v.config_version, v.log_version = cv, lv
+        env = {"plateform_key": key, "self": v}
+        return tuple(eval(exprs[k], {}, env) for k in ("pack_module_name", "config_module_name", "log_module_name"))
     for p_ in [m for m in mods if m["kind"] == "KPack"]:
         cfgs = sorted(m["version"] for m in mods if m["kind"] == "KCfg" and m["stem"].startswith(p_["stem"] + "-cfg-"))
         logs = sorted(m["version"] for m in mods if m["kind"] == "KLog" and m["stem"].startswith(p_["stem"] + "-log-"))
@@ -67,6 +97,19 @@ def run(ctx):
                 except Exception as e:  # noqa
                     got = ("raises", type(e).__name__)
                 want = ("%s-cfg-%d" % (p_["stem"], cv), "%s-log-%d" % (p_["stem"], lv))
+                for cl, exprs in clients.items():
+                    if exprs is None or got[0] == "raises":
+                        continue
+                    ctx.count("client_module_name_evaluations")
+                    try:
+                        names = client_names(exprs, r.plateform_key.lower(), r.config_version, r.log_version)
+                    except Exception as e:  # noqa
+                        names = ("raises", type(e).__name__, "")
+                    wantn = ("geckolib.driver.packs." + p_["stem"], "geckolib.driver.packs." + want[0], "geckolib.driver.packs." + want[1])
+                    if names != wantn or any(importlib.util.find_spec(n) is None for n in names):
+                        ctx.fail("name:client_selects:%s:%s" % (cl, p_["stem"]), "%s: a spa reporting %s config %d / log %d makes the client import %r; the published modules are %r" % (
+                            cl, p_["pack_name"], cv, lv, names, wantn), {"client": cl, "platform": p_["pack_name"], "config_version": cv, "log_version": lv, "imports": list(names), "published": list(wantn)})
+                        clients[cl] = None
                 if got != want:
                     ctx.fail("name:files_reply:%s" % p_["stem"], "a spa reporting %s config %d / log %d makes the client load %r instead of %r" % (p_["pack_name"], cv, lv, got, want),
                              {"platform": p_["pack_name"], "config_version": cv, "log_version": lv, "selected": got, "expected": want})
